@@ -861,9 +861,14 @@ impl Handler for RootHandler {
             }
             Message::AddBlock(m) => {
                 let mut tracker = self.node.get_tracker();
-                let proof = m
-                    .unspent_proof
-                    .ok_or(Status::invalid_argument("could not deserialize proof"))?;
+                let proof = match m.unspent_proof {
+                    Some(proof) => proof,
+                    None => {
+                        // the block may have been streamed already: do not leave the stream open
+                        tracker.abort_streamed_block();
+                        return Err(Status::invalid_argument("could not deserialize proof").into());
+                    }
+                };
                 match tracker
                     .add_block(deserialize(m.header.0.as_slice()).expect("header"), proof.0)
                 {
@@ -901,10 +906,14 @@ impl Handler for RootHandler {
             }
             Message::RemoveBlock(m) => {
                 let mut tracker = self.node.get_tracker();
-                let proof = m
-                    .unspent_proof
-                    .map(|prf| deserialize(prf.0.as_slice()).expect("deserialize TxoProof"))
-                    .ok_or(Status::invalid_argument("could not deserialize proof"))?;
+                let proof = match m.unspent_proof {
+                    Some(prf) => deserialize(prf.0.as_slice()).expect("deserialize TxoProof"),
+                    None => {
+                        // the block may have been streamed already: do not leave the stream open
+                        tracker.abort_streamed_block();
+                        return Err(Status::invalid_argument("could not deserialize proof").into());
+                    }
+                };
                 let prev_headers = Headers(m.prev_block_header, m.prev_filter_header);
                 tracker.remove_block(proof, prev_headers).expect("remove_block");
                 self.node
